@@ -1044,6 +1044,123 @@ func valuesScenario() *vrt.Scenario {
 	}
 }
 
+// ---------------------------------------------------------------- stored-value grid, file-backed counter
+
+// The same Service.NewRunNumber keeps the counter in <coreWorkingDir>/runcounter.txt when the
+// configuration backend is not Consul (mock:// and file:// backends: test and single-node
+// set-ups; it is the counter every environment-level harness of this framework runs on). There are
+// no concurrent steps to interleave (the code says so itself: "unsafe check-and-set"), but the
+// statement's "larger than every number given before, or the start fails" holds for it as well:
+// the grid of stored contents x 4 consecutive starts x one start from a fresh Service.
+func runFileGrid(count func(class string), failf func(clause, f string, a ...any), sample func(string)) {
+	seen := map[string]bool{}
+	fail := func(clause, f string, a ...any) { // one witness per clause
+		if !seen[clause] {
+			seen[clause] = true
+			failf(clause, f, a...)
+		}
+	}
+	dir, err := os.MkdirTemp(os.Getenv("VERIF_WORK"), "c07file-")
+	if err != nil {
+		dir, _ = os.MkdirTemp("", "c07file-")
+	}
+	defer os.RemoveAll(dir)
+	old := viper.GetString("coreWorkingDir")
+	viper.Set("coreWorkingDir", dir)
+	defer viper.Set("coreWorkingDir", old)
+	file := dir + "/runcounter.txt"
+	stored := func() (string, bool) {
+		b, err := os.ReadFile(file)
+		return string(b), err == nil
+	}
+	for _, in := range valueGrid {
+		os.Remove(file)
+		if in.present {
+			os.WriteFile(file, []byte(in.value), 0o644)
+		}
+		svc, err := local.NewService("mock://")
+		if err != nil {
+			panic("cannot build a mock:// Service: " + err.Error())
+		}
+		class := "absent"
+		if in.present {
+			class = canonical(in.value)
+		}
+		var floor *big.Int // every number given must be larger than this
+		switch class {
+		case "small", "max", "beyond-uint32":
+			floor, _ = new(big.Int).SetString(in.value, 10)
+		case "garbage":
+			if v, ok := new(big.Int).SetString(strings.TrimSpace(in.value), 10); ok {
+				floor = v
+			}
+		}
+		var seq []string
+		for i := 0; i < 5; i++ {
+			if i == 4 {
+				svc, _ = local.NewService("mock://") // restart of the core
+			}
+			before, bex := stored()
+			n32, cerr := svc.NewRunNumber()
+			after, aex := stored()
+			bclass := "absent"
+			if bex {
+				bclass = canonical(before)
+			}
+			verdict := "number"
+			if cerr != nil {
+				verdict = "error"
+			}
+			count("file:" + bclass + "," + verdict)
+			wit := "stored=" + bclass
+			if bclass == "max" {
+				wit = "stored=" + before
+			}
+			if cerr != nil {
+				seq = append(seq, "err")
+				if bclass == "absent" || bclass == "small" {
+					fail("spurious-failure:file-backend:"+wit, "start %d with the counter file holding %q (exists=%v) failed: %v", i, before, bex, cerr)
+				}
+				continue
+			}
+			seq = append(seq, fmt.Sprint(n32))
+			n := new(big.Int).SetUint64(uint64(n32))
+			if floor != nil && n.Cmp(floor) <= 0 {
+				cl := "not-increasing:file-backend:"
+				if bclass == "max" {
+					cl = "wraparound:file-backend:"
+				}
+				fail(cl+wit, "start %d with the counter file holding %q was given run number %d, which is not larger than numbers given before (%s); the file now holds %q", i, before, n32, floor, after)
+				break // everything after a reuse is a consequence of it
+			}
+			if !aex || after != n.String() {
+				fail("number-without-advance:file-backend:"+wit, "start %d returned %d but the counter file now holds %q (exists=%v)", i, n32, after, aex)
+			}
+			floor = n
+		}
+		sample(fmt.Sprintf("values-file: initial present=%v value=%q -> %s", in.present, in.value, strings.Join(seq, " ")))
+	}
+}
+
+func valuesFileScenario() *vrt.Scenario {
+	return &vrt.Scenario{Name: "values-file", Prop: prop,
+		Doc: "sequential, file-backed counter (mock:// backend): every initial content of runcounter.txt from the grid x 4 consecutive starts from one Service + 1 from a fresh Service",
+		Direct: func(r *vrt.DirectReport, tier string) {
+			logrus.SetOutput(io.Discard)
+			runFileGrid(r.Count, r.Fail, func(s string) {
+				if len(r.Samples) < 9 {
+					r.Samples = append(r.Samples, s)
+				}
+			})
+			r.Notes = append(r.Notes, fmt.Sprintf("file-backed counter: %d initial contents x 5 calls (the last from a fresh Service), no concurrency", len(valueGrid)))
+		},
+		Setup: func() { logrus.SetOutput(io.Discard) },
+		Body: func() {
+			runFileGrid(func(string) {}, vrt.Fail, func(s string) { vrt.Logf("%s", s) })
+		},
+	}
+}
+
 var currentTier = "quick"
 
 func main() {
@@ -1060,6 +1177,7 @@ func main() {
 	C := func(n int) callerSpec { return callerSpec{"C", 1, n} } // another core
 	vrt.Main([]*vrt.Scenario{
 		valuesScenario(),
+		valuesFileScenario(),
 		// quick and thorough (thorough with a larger fault budget)
 		schedScenario(spec{name: "create-race", present: false, callers: []callerSpec{A(1), B(1), C(1)}, faultsQ: 1, faultsT: 2, secondsQ: 100, secondsT: 600}),
 		schedScenario(spec{name: "two-cores-2x2", present: true, callers: []callerSpec{A(2), C(2)}, foreign: []string{"otherkey"}, faultsQ: 0, faultsT: 1, secondsQ: 100, secondsT: 600}),
